@@ -117,13 +117,24 @@ Definition stmt_soc_sparse_expansion : Prop :=
     = map Ropp (soc_mul_Hs OpsR (w0 :: w1) eta x).
 
 (** ** second-order cone, update_scaling level *)
-(** FULL statement (not proved; checked numerically on every run by [p_soc_nt]):
+(** FULL statement (proved: [C13_soc_nt_identities]; also checked numerically on every run by [p_soc_nt]):
     for interior s, z the computed (w, η, λ) satisfy W z = λ = W⁻¹ s *)
 Definition stmt_soc_nt_identities : Prop :=
   forall s z sc y, length s = length z -> length y = length z -> int_soc s -> int_soc z ->
     soc_update_scaling OpsR s z = Some sc ->
     soc_mul_W OpsR (sc_w sc) (sc_eta sc) z 1 0 y = sc_lam sc /\
     soc_mul_Winv OpsR (sc_w sc) (sc_eta sc) s 1 0 y = sc_lam sc.
+(** WᵀW z = s for the computed scaling *)
+Definition stmt_soc_nt_WtWz : Prop :=
+  forall s z sc, length s = length z -> int_soc s -> int_soc z ->
+    soc_update_scaling OpsR s z = Some sc ->
+    soc_mul_Hs OpsR (sc_w sc) (sc_eta sc) z = s.
+(** Δs_from_Δz_offset = Wᵀ(λ \ ds) = W(λ \ ds), for the computed scaling *)
+Definition stmt_soc_ds_offset : Prop :=
+  forall s z sc ds y, length s = length z -> length ds = length z -> length y = length z ->
+    int_soc s -> int_soc z -> soc_update_scaling OpsR s z = Some sc ->
+    soc_ds_from_dz_offset OpsR (sc_w sc) (sc_lam sc) (sc_eta sc) ds z
+    = soc_mul_W OpsR (sc_w sc) (sc_eta sc) (soc_inv_circ_op OpsR (sc_lam sc) ds) 1 0 y.
 (** proved part: whenever update_scaling succeeds, w is normalised and η > 0 (so all the
     operator-level theorems apply to the computed scaling); it succeeds on interior points *)
 Definition stmt_soc_nt_identities_partial : Prop :=
